@@ -138,6 +138,7 @@ def batches(rng, tier):
     thorough = tier == "thorough"
     maxlen = 40 if thorough else 25
     yield from shape_pair_batches(tier)
+    yield from shape_permuted_batches(tier)
     yield from shape_observer_batches(tier)
     yield from shape_op_batches(tier)
     yield from two_step_batches(tier)
@@ -214,6 +215,65 @@ def shape_pair_batches(tier):
     yield Batch("shape-pairs", ops, kind="history", exhaustive=True,
                 note=f"all pairs of ordered tree shapes with <= {maxn} nodes and identical pre-order values (+ one-value variants): "
                      "== / != both ways, on sub-trees and on a copy")
+
+
+def valued(shape, it):
+    """(value, [children]) with the values taken in pre-order"""
+    v = next(it)
+    return (v, [valued(k, it) for k in shape])
+
+
+def build_valued(root, t):
+    lines = [f"new {t[0]}"]
+
+    def rec(path, kids):
+        for j, k in enumerate(kids):
+            lines.append(f"pushb {path} {k[0]}")
+            rec(f"{path}.{j}", k[1])
+    rec(f"p{root}", t[1])
+    return lines
+
+
+def permute_at(t, path, perm):
+    """the tree with the children of the node at `path` (list of child indices) rearranged by `perm`"""
+    if not path:
+        return (t[0], [t[1][i] for i in perm])
+    kids = list(t[1])
+    kids[path[0]] = permute_at(kids[path[0]], path[1:], perm)
+    return (t[0], kids)
+
+
+def shape_permuted_batches(tier):
+    """Same multiset of children, different order: every shape (<= 5 nodes quick, <= 6 thorough) against the same tree with the
+    children of ONE node reversed / rotated (the sub-trees travel with their values). == must be false unless the rearranged
+    children are equal trees; a comparison that treats the child list as a multiset, or that looks at the sorted values, is wrong."""
+    maxn = 6 if tier == "thorough" else 5
+    ops = []
+
+    def inner(t, path):
+        out = [(path, t)]
+        for j, k in enumerate(t[1]):
+            out += inner(k, path + [j])
+        return out
+    for n in range(3, maxn + 1):
+        for sh in shapes(n):
+            for vals in (list(range(1, n + 1)), [7] * n):
+                t = valued(sh, iter(vals))
+                for path, sub in inner(t, []):
+                    k = len(sub[1])
+                    if k < 2:
+                        continue
+                    perms = [list(reversed(range(k)))]
+                    if k > 2:
+                        perms.append(list(range(1, k)) + [0])
+                    for perm in perms:
+                        u = permute_at(t, path, perm)
+                        ops.append("reset")
+                        ops += build_valued(0, t) + build_valued(1, u)
+                        ops += ["eq p0 p1", "eq p1 p0", "out p0", "out p1", "pre p0", "pre p1", "sort p0", "sort p1", "eq p0 p1"]
+    yield Batch("shape-permuted", ops, kind="history", exhaustive=True,
+                note=f"all shapes with <= {maxn} nodes against themselves with the children of one node reversed / rotated (distinct and "
+                     "all-equal values): == / != both ways, operator<<, pre_order, and == again after sorting both roots")
 
 
 def build_under(prefix, shape, values):
@@ -320,6 +380,12 @@ def shape_op_batches(tier):
             for pth, sub in na:
                 for case in unary_cases(pth, sub):
                     ops += ["reset"] + setup + [case, "obsall"]
+            # sorting children that are all equivalent (equal values, different sub-trees / identities): a stable sort moves nothing
+            eqsetup = build_lines(0, t, value_patterns(n)[1])
+            for pth, sub in na:
+                if len(sub) >= 2:
+                    for case in (f"sort {pth}", f"sortp {pth} 0", f"sortp {pth} 1", f"sortp {pth} 2", f"sortp {pth} 3"):
+                        ops += ["reset"] + eqsetup + [case, "obsall"]
             for pa, sa in na + nb:
                 for pb, sb in na + nb:
                     if n > 1 and pa.startswith("p1") and pb.startswith("p1"):
